@@ -70,6 +70,14 @@ class LoopMixin:
                     items = [d.elem(s, k) for d in subs]
                     return Val(TupleT([x.ty for x in items]), items)
                 return IterDesc(length, elem)
+            if fn == "reversed" and fn not in st.env and len(it_node.args) == 1:
+                sub = self.iter_desc(it_node.args[0], st)
+                return IterDesc(sub.length, lambda s, k, sub=sub: sub.elem(s, sub.length(s) - 1 - k))
+            if fn == "list" and fn not in st.env and len(it_node.args) == 1 and isinstance(it_node.args[0], ast.Call):
+                # list(<iterable expression>): a snapshot of the sequence as it is now
+                sub = self.iter_desc(it_node.args[0], st)
+                snap = st.copy()
+                return IterDesc(lambda s, sub=sub, snap=snap: sub.length(snap), lambda s, k, sub=sub, snap=snap: sub.elem(snap, k))
             if fn == "enumerate" and fn not in st.env:
                 sub = self.iter_desc(it_node.args[0], st)
 
@@ -135,9 +143,42 @@ class LoopMixin:
         return d
 
     # -- for -----------------------------------------------------------------------------------
+    def desugar_genexp_for(self, node, st):
+        """for T in (E for V in ITER if C): BODY   ==   for V' in ITER: if C': T = E'; BODY
+        (V' = the generator's own variables, renamed: they live in the generator's scope, not in the function's)."""
+        g = node.iter.generators[0]
+        names = {n.id for n in ast.walk(g.target) if isinstance(n, ast.Name)}
+        ren = {n: f"__g{node.lineno}_{n}" for n in names}
+
+        class R(ast.NodeTransformer):
+            def visit_Name(self, n):
+                return ast.copy_location(ast.Name(id=ren.get(n.id, n.id), ctx=n.ctx), n)
+        import copy as _copy
+        tgt = R().visit(_copy.deepcopy(g.target))
+        ifs = [R().visit(_copy.deepcopy(c)) for c in g.ifs]
+        elt = R().visit(_copy.deepcopy(node.iter.elt))
+        assign = ast.Assign(targets=[node.target], value=elt, lineno=node.lineno, col_offset=0)
+        inner = [assign] + list(node.body)
+        if ifs:
+            test = ifs[0] if len(ifs) == 1 else ast.BoolOp(op=ast.And(), values=ifs)
+            inner = [ast.If(test=test, body=inner, orelse=[], lineno=node.lineno, col_offset=0)]
+        new = ast.For(target=tgt, iter=g.iter, body=inner, orelse=[], lineno=node.lineno, col_offset=node.col_offset)
+        ast.fix_missing_locations(new)
+        # the rewritten loop is the same loop of the function (same ordinal in the contract)
+        o = self.loop_ordinal(st.frame, node)
+        self.loop_ord_cache[st.frame.qualname][id(new)] = o
+        self._desugared = getattr(self, "_desugared", [])
+        self._desugared.append(new)         # keep alive (ids are used as keys)
+        return new
+
     def st_For(self, node, st):
         if node.orelse:
             raise Unsupported("for-else")
+        if isinstance(node.iter, ast.GeneratorExp) and len(node.iter.generators) == 1:
+            cache = self.__dict__.setdefault("_desugar_cache", {})
+            if id(node) not in cache:
+                cache[id(node)] = self.desugar_genexp_for(node, st)
+            node = cache[id(node)]
         lc, o = self.loop_contract(st, node)
         desc = self.iter_desc(node.iter, st)
         pre = self.flush(st)
@@ -544,6 +585,12 @@ class CompMixin:
                                         postcondition holds for every index (quantified contract application)
     filter [x for x in xs if p(x)]      p pure  -> sub-sequence with a monotone ghost index map
     """
+
+    def ev_GeneratorExp(self, e, st):
+        """A generator expression handed to a consumer that exhausts it (max, min, sum, list, ...): evaluated eagerly, in
+        order, as the list of its elements (A-GEN)."""
+        self.used_assumptions.add("A-GEN")
+        return self.ev_ListComp(e, st)
 
     def ev_ListComp(self, e, st):
         if len(e.generators) != 1 or e.generators[0].is_async:
